@@ -17,6 +17,12 @@ alphabets, wider alphabets and triples inside the groups) is executed:
 * ``rename`` every (oldName -> name) pair: a document using the old name sets the new one;
 * ``copy``   ``modified()`` / ``duplicate()`` / ``deepcopy`` / pickle copies, changed by assignment or in
              place: the original keeps every value, the copy holds what was assigned and round-trips;
+* ``alias``  a mutable value handed over in every form the API accepts (plain data, the Setting object,
+             the live value object of another Settings, getSetting, duplicate, deepcopy, pickle), then
+             changed in place on one side through every mutator of its type: the other side is unchanged;
+* ``plugin`` options / defaults contributed by a (test) plug-in to every setting with options and to
+             synthetic plug-in settings (incl. an initially empty enforced list, both hook orders): the
+             valid/invalid oracle and the round trip run against the extended definition;
 * ``file``   the file-based route (``writeToYamlFile`` / ``Settings(fName)`` / medium style re-write);
 * ``chars``  every code point U+0001..U+017F (+ separators, BOM, non-characters, astral) in four contexts
              through one text-typed and one list-typed setting (short style);
@@ -215,13 +221,13 @@ class _V:
 # case kind: dev
 
 
-def _apply_assignments(V, cs, assign, where="assign"):
+def _apply_assignments(V, cs, assign, where="assign", refs=None):
     """Assign each (name, value) through ``cs[name] = v`` and judge acceptance, stored value and
     retention. Returns the list of names whose assignment was accepted."""
     accepted = []
     for name, jv in assign:
         v = R.dec(jv)
-        s = dict(cs.items())[name]
+        s = (refs or {}).get(name) or dict(cs.items())[name]
         before = _snap(cs)
         want, wval = _ref(s, v)
         got, err = _assign(cs, name, v)
@@ -839,7 +845,285 @@ def _eval_chars(case):
     return V
 
 
-_EVAL = {"chars": _eval_chars, "dev": _eval_dev, "doc": _eval_doc, "rename": _eval_rename, "copy": _eval_copy, "file": _eval_file, "renamer": _eval_renamer, "collision": _eval_collision}
+# ---------------------------------------------------------------------------------------------
+# case kind: plugin (options and defaults contributed by a plug-in, on real and synthetic settings)
+
+SYN_PLUGIN_SETTINGS = {
+    "synEnfEmpty": dict(default="", options=[], enforced=True),
+    "synEnf": dict(default="a", options=["a", "b"], enforced=True),
+    "synFree": dict(default="a", options=["a", "b"], enforced=False),
+    "synEnfInt": dict(default=1, options=[1, 2], enforced=True),
+}
+
+
+def _eval_plugin(case):
+    """A test plug-in contributes Option / Default entries for ``target`` (a setting of the app, or a
+    synthetic one defined by a second test plug-in, registered before or after). Reference: the
+    setting then behaves as if it had been declared with the extended option list / the new default."""
+    import types
+
+    from armi import getPluginManagerOrFail, plugins
+    from armi.settings import setting
+
+    V = _V(case)
+    target = case["target"]
+    adds = [R.dec(x) for x in case["add"]]
+    syn = SYN_PLUGIN_SETTINGS.get(target)
+    contrib = [setting.Option(o, target) for o in adds]
+    has_default = "default" in case
+    if has_default:
+        contrib.append(setting.Default(R.dec(case["default"]), target))
+
+    class C17OptionsPlugin(plugins.ArmiPlugin):
+        @staticmethod
+        @plugins.HOOKIMPL
+        def defineSettings():
+            return list(contrib)
+
+    class C17DefiningPlugin(plugins.ArmiPlugin):
+        @staticmethod
+        @plugins.HOOKIMPL
+        def defineSettings():
+            return [setting.Setting(target, default=syn["default"], description="synthetic plug-in setting", options=list(syn["options"]), enforcedOptions=syn["enforced"])]
+
+    if syn:
+        options0, default0, enforced, custom = list(syn["options"]), syn["default"], syn["enforced"], None
+        # hooks run last-registered-first: "options-first" makes the Option arrive before the setting exists
+        regs = [C17DefiningPlugin, C17OptionsPlugin] if case.get("order") == "options-first" else [C17OptionsPlugin, C17DefiningPlugin]
+    else:
+        b = discover()[target]
+        options0, default0, enforced, custom = (list(b.options) if b.options is not None else None), b.default, b.enforcedOptions, getattr(b, "_customSchema", None)
+        regs = [C17OptionsPlugin]
+    ext = (options0 or []) + adds if (options0 is not None or adds) else None
+    wd = R.dec(case["default"]) if has_default else default0
+    # the value type stays the declared one; a plug-in default has to fit it
+    refsetting = types.SimpleNamespace(name=target, _customSchema=custom, options=ext, enforcedOptions=enforced, default=default0, oldNames=[])
+    tag = "%s+%s%s" % (target, adds, ("/default=%r" % (wd,)) if has_default else "")
+    # control (real settings only): what the same default / assignment does without the plug-in; a
+    # failure that is already there belongs to the dev cases (e.g. late-validated verbosity values)
+    control = set()
+    if not syn:
+        C = _V(case)
+        c0 = _new()
+        pre = ([[target, case["default"]]] if has_default else []) + list(case.get("assign", []))
+        for n_, jv in pre:
+            _assign(c0, n_, R.dec(jv))
+        _roundtrip(C, c0, "short", (), _snap(c0), _defaults(c0))
+        control = set(v["key"][len("c17/"):] for v in C.vs)
+    pm = getPluginManagerOrFail()
+    done = []
+    try:
+        for p in regs:
+            pm.register(p)
+            done.append(p)
+        V.n("docs")
+        dwant, dval = _ref(refsetting, wd) if has_default else ("ok", default0)
+        styles = tuple(case.get("styles", ("short", "full")))
+        if not has_default and _ref(refsetting, default0)[0] == "refused":
+            # the test plug-in extended an enforced list that does not hold the declared default and gave no
+            # new default: the resulting definition is ill-formed by the plug-in's doing; only the short
+            # style (which does not list defaults) is judged
+            V.n("plugin_default_outside_extended_options")
+            styles = ("short",)
+        try:
+            cs = _new()
+            built, err = True, ""
+        except Exception as e:
+            built, err = False, "%s: %s" % (type(e).__name__, str(e)[:120])
+        if options0 is None and adds:
+            # a setting declared without an option list cannot take options: either outcome is a refusal or an extension
+            if not built:
+                return V
+        if not built:
+            if not (has_default and dwant == "refused"):
+                V.bad("plugin-contribution-refused:" + target, "plug-in contributes %s: Settings() raised %s" % (tag, err))
+            return V
+        if has_default and dwant == "refused":
+            V.bad("plugin-default-invalid-accepted:" + target, "plug-in default %r for %s violates its (extended) schema/options %s but Settings() was built" % (wd, target, ext))
+            return V
+        s = dict(cs.items())[target]
+        if ext is not None and list(s.options or []) != ext:
+            V.bad("plugin-options-not-extended:" + target, "%s: options are %s, expected %s" % (tag, s.options, ext))
+        if has_default:
+            if R.loose(R.canon(s.default)) != R.loose(R.canon(wd)):
+                V.bad("plugin-default-not-applied:" + target, "%s: default is %r" % (tag, s.default))
+            if dwant == "ok" and not _stored_matches(s.value, dval)[0]:
+                V.bad("plugin-default-not-applied:" + target, "%s: a fresh Settings() holds %r: %s" % (tag, s.value, _stored_matches(s.value, dval)[1]))
+        # the valid/invalid oracle against the extended definition
+        W = _V(case)
+        _apply_assignments(W, cs, case.get("assign", []), refs={target: refsetting})
+        for k, n in W.stats.items():
+            V.n(k, n)
+        for v in W.vs:
+            V.bad("plugin:" + v["key"][len("c17/"):], "plug-in contributes %s: %s" % (tag, v["msg"]))
+        src, dflt = _snap(cs), _defaults(cs)
+        W = _V(case)
+        for style in styles:
+            _roundtrip(W, cs, style, (), src, dflt)
+        for k, n in W.stats.items():
+            V.n(k, n)
+        for v in W.vs:
+            if v["key"][len("c17/"):] in control or (control and v["key"].split(":")[0] in ("c17/default-unreadable", "c17/read-raises-combination")):
+                V.n("plugin_failure_same_as_plain")
+                continue
+            V.bad("plugin:" + v["key"][len("c17/"):], "plug-in contributes %s: %s" % (tag, v["msg"]))
+        V.n("nontrivial")
+    finally:
+        for p in reversed(done):
+            try:
+                pm.unregister(p)
+            except Exception:
+                pass
+    return V
+
+
+# ---------------------------------------------------------------------------------------------
+# case kind: alias (a value handed over in every form the API accepts, then changed in place on one side)
+
+ALIAS_FORMS = ("assign-live", "modified-live", "modified-live-setting", "modified-data", "getSetting", "duplicate", "deepcopy", "pickle")
+MUTATORS = ("append", "setitem0", "clear", "dict-set", "dict-del", "nested", "xs-setDefaults", "xs-attr", "xs-list-attr")
+
+
+def _first_nested(val, depth=0):
+    """First container found strictly inside ``val`` (depth-first)."""
+    items = val.values() if isinstance(val, dict) else (val if isinstance(val, list) else (vars(val).values() if hasattr(val, "__dict__") else ()))
+    for x in items:
+        if isinstance(x, (list, dict)) or (hasattr(x, "__dict__") and not isinstance(x, type)):
+            return x
+    for x in items:
+        if isinstance(x, (list, dict)):
+            y = _first_nested(x, depth + 1)
+            if y is not None:
+                return y
+    return None
+
+
+def _mutate(val, how):
+    """Apply one in-place mutator to a live value object. False when it does not apply to this value."""
+    if how == "append" and isinstance(val, list):
+        val.append("zz")
+        return True
+    if how == "setitem0" and isinstance(val, list) and val:
+        val[0] = "zz"
+        return True
+    if how == "clear" and isinstance(val, (list, dict)) and val:
+        val.clear()
+        return True
+    if how == "dict-set" and isinstance(val, dict):
+        val["zz"] = "zz"
+        return True
+    if how == "dict-del" and isinstance(val, dict) and val:
+        del val[next(iter(val))]
+        return True
+    if how == "nested":
+        x = _first_nested(val)
+        if isinstance(x, list):
+            x.append("zz")
+            return True
+        if isinstance(x, dict):
+            x["zz"] = "zz"
+            return True
+        if x is not None and hasattr(x, "__dict__"):
+            setattr(x, sorted(vars(x))[0], "zz")
+            return True
+        return False
+    if how == "xs-setDefaults" and hasattr(val, "setDefaults") and isinstance(val, dict) and val:
+        try:
+            val.setDefaults("Median", ["fuel"])
+        except Exception:
+            pass  # a refusal half-way still is a change made on this side only
+        return True
+    if how in ("xs-attr", "xs-list-attr") and isinstance(val, dict):
+        for o in val.values():
+            if hasattr(o, "__dict__") and hasattr(o, "criticalBuckling"):
+                if how == "xs-attr":
+                    o.criticalBuckling = not o.criticalBuckling
+                    o.driverID = "ZZ"
+                    return True
+                for a, x in sorted(vars(o).items()):
+                    if isinstance(x, list):
+                        x.append("zz")
+                        return True
+        return False
+    return False
+
+
+def _eval_alias(case):
+    import copy
+    import pickle
+
+    V = _V(case)
+    name, form, mut, side = case["name"], case["form"], case["mut"], case["side"]
+    orig = _new()
+    if "v0" in case:
+        got, _ = _assign(orig, name, R.dec(case["v0"]))
+        if got != "ok":
+            V.n("pre_refused")
+            return V
+    live_setting = dict(orig.items())[name]
+    live = live_setting.value
+    V.n("copies")
+    V.n("alias_" + form)
+    other = None
+    if form == "assign-live":
+        cp = _new()
+        cp[name] = live
+    elif form == "modified-live":
+        cp = orig.modified(newSettings={name: live})
+    elif form == "modified-live-setting":
+        cp = orig.modified(newSettings={name: live_setting})
+    elif form == "modified-data":
+        cp = orig.modified(newSettings={name: R.dec(case["v0"])}) if "v0" in case else orig.modified()
+    elif form == "getSetting":
+        cp = None
+        other = orig.getSetting(name)
+    elif form == "duplicate":
+        cp = orig.duplicate()
+    elif form == "deepcopy":
+        cp = copy.deepcopy(orig)
+    elif form == "pickle":
+        cp = pickle.loads(pickle.dumps(orig))
+    else:
+        raise RuntimeError("unknown form " + form)
+    if cp is not None:
+        other = dict(cp.items())[name]
+    b_orig = _snap(orig)
+    b_other = R.canon_setting(name, other.value) if cp is None else _snap(cp)
+    if cp is not None and b_other != b_orig:
+        d = _diff(b_orig, b_other)
+        V.bad("copy-differs-from-original:%s:%s" % (form, d[0]), "%s: the copy differs from the original in %s" % (form, d))
+    target = other.value if side == "copy" else live_setting.value
+    if not _mutate(target, mut):
+        V.n("mutator_not_applicable")
+        return V
+    V.n("nontrivial")
+    V.n("mut_" + mut)
+    if side == "copy":
+        a = _snap(orig)
+        d = _diff(b_orig, a)
+        if d:
+            V.bad(_alias_class(form, mut, live), "%s: %s handed over as %s; after %s on the copy's value the original's %s changed: %s -> %s" % (name, _short(case.get("v0")), form, mut, d, _short(b_orig[d[0]]), _short(a[d[0]])))
+    else:
+        a = R.canon_setting(name, other.value) if cp is None else _snap(cp)
+        if a != b_other:
+            V.bad(_alias_class(form, mut, live), "%s: %s handed over as %s; after %s on the original's value the copy changed" % (name, _short(case.get("v0")), form, mut))
+    return V
+
+
+def _alias_class(form, mut, live):
+    """One class per sharing mechanism: how the value was handed over (the three ways of passing a live
+    object are one), whether the shared part is the value object itself or something inside it, and the
+    kind of value."""
+    fc = "live" if form in ("assign-live", "modified-live") else form
+    depth = "nested" if mut in ("nested", "xs-attr", "xs-list-attr", "xs-setDefaults") else "top"
+    return "shared-value:%s:%s:%s" % (fc, depth, _kindname(live))
+
+
+def _kindname(val):
+    return type(val).__name__ if type(val).__name__ in ("list", "dict") or hasattr(val, "setDefaults") else ("list" if isinstance(val, list) else ("dict" if isinstance(val, dict) else type(val).__name__))
+
+
+_EVAL = {"plugin": _eval_plugin, "alias": _eval_alias, "chars": _eval_chars, "dev": _eval_dev, "doc": _eval_doc, "rename": _eval_rename, "copy": _eval_copy, "file": _eval_file, "renamer": _eval_renamer, "collision": _eval_collision}
 
 
 def evaluate(case):
@@ -977,6 +1261,89 @@ def build_cases(ctx):
                     cases.append({"kind": "copy", "name": n, "how": how, "v0": R.enc(v0), "v1": None})
             for how in ("duplicate-inplace", "modified-inplace"):
                 cases.append({"kind": "copy", "name": n, "how": how, "v1": None})
+    # the alias family: every mutable-valued setting x value forms x in-place mutators x side
+    def _muts(v, compound):
+        m = []
+        if isinstance(v, list):
+            m += ["append"] + (["setitem0", "clear"] if v else [])
+            if any(isinstance(x, (list, dict)) for x in v):
+                m.append("nested")
+        elif isinstance(v, dict):
+            m += ["dict-set"] + (["dict-del"] if v else [])
+            if compound and v:
+                m += ["xs-setDefaults", "xs-attr", "xs-list-attr", "nested"]
+            elif any(isinstance(x, (list, dict)) for x in v.values()):
+                m.append("nested")
+        return m
+
+    nalias = 0
+    for n in names:
+        d = defs[n].default
+        if not (isinstance(d, (list, dict)) or d is None):
+            continue
+        compound = type(defs[n]).__name__ != "Setting"
+        good = [v for v in cls[n][0] if isinstance(v, (list, dict))]
+        nested = [v for v in good if (isinstance(v, list) and any(isinstance(x, (list, dict)) for x in v)) or (isinstance(v, dict) and any(isinstance(x, (list, dict)) and x for x in v.values()))]
+        picks = []
+        for v in good[:1] + nested[: 2 if ctx.quick else 6] + good[-1:]:
+            if R.jkey(v) not in [R.jkey(x) for x in picks]:
+                picks.append(v)
+        for v0 in picks:
+            for form in ALIAS_FORMS:
+                for mut in _muts(v0, compound):
+                    for side in ("copy", "orig"):
+                        cases.append({"kind": "alias", "name": n, "v0": R.enc(v0), "form": form, "mut": mut, "side": side})
+                        nalias += 1
+    info["alias_cases"] = nalias
+
+    # plug-in contributed options and defaults
+    def plug(target, add, default=None, has_default=False, order=None, vals=(), styles=None):
+        base = {"kind": "plugin", "target": target, "add": [R.enc(x) for x in add]}
+        if has_default:
+            base["default"] = R.enc(default)
+        if order:
+            base["order"] = order
+        if styles:
+            base["styles"] = styles
+        cases.append(dict(base))
+        for v in vals:
+            c = dict(base)
+            c["assign"] = [[target, R.enc(v)]]
+            cases.append(c)
+
+    nplug0 = len(cases)
+    for n in names:
+        sdef = defs[n]
+        good, bad, _ = cls[n]
+        # a plug-in changes the default: to a valid value (every setting), to an invalid one
+        if good and n != "versions":  # (the writer's bookkeeping entry always overwrites versions)
+            plug(n, [], good[0], True, styles=["short"] if ctx.quick else None)
+        if bad:
+            plug(n, [], bad[0], True)
+        if sdef.options is None:
+            continue
+        opts = list(sdef.options)
+        new = ["plugOptA", "plugOptB"] if not opts or isinstance(opts[0], str) else [max(opts) + 1, max(opts) + 2]
+        probe = new + opts[:2] + ["notAnOption", new[0].lower() if isinstance(new[0], str) else -1, "", 5, None]
+        if sdef.enforcedOptions:
+            for add in (new[:1], new):
+                plug(n, add, vals=probe)
+                plug(n, add, add[0], True, vals=probe[:4])
+                plug(n, add, "notAnOption", True)
+        else:
+            plug(n, new[:1], vals=probe[:3], styles=["short"])
+    for n, syn in SYN_PLUGIN_SETTINGS.items():
+        opts = syn["options"]
+        new = [3, 4] if n == "synEnfInt" else ["plugOptA", "plugOptB"]
+        probe = new + opts + ["notAnOption", "", 5, None, syn["default"]]
+        for order in ("options-first", "setting-first"):
+            plug(n, [], vals=probe, order=order)
+            for add in (new[:1], new):
+                plug(n, add, vals=probe, order=order)
+                plug(n, add, add[-1], True, vals=probe, order=order)
+                plug(n, add, "notAnOption" if n != "synEnfInt" else 99, True, order=order)
+    info["plugin_cases"] = len(cases) - nplug0
+
     # file route
     for n in names:
         good = [v for v in cls[n][0]]
@@ -1057,6 +1424,8 @@ def run(ctx):
         values_valid_nondefault=info["values_valid_nondefault"],
         values_invalid=info["values_invalid"],
         rename_pairs=info["rename_pairs"],
+        alias_cases=info["alias_cases"],
+        plugin_cases=info["plugin_cases"],
         char_sweep=dict(settings=info["char_sweep_settings"], code_points=len(CODEPOINTS), contexts=list(CHAR_CONTEXTS)),
         groups=info["groups"],
         settings_with_unmodelled_schema=unmod,
